@@ -361,7 +361,7 @@ func (s *sim) judgeDelivered(completed []*item, before []hsPhase) {
 		// close, no timeout yet - is the peer refusing the correct remote)
 		unprovoked := s.discStep >= 0 && s.discCause == "protocol" && !s.remoteClosed
 		if it.kind == itVerack && ph == phExpectVerack && after == phEstablished && s.associated && s.quiet() &&
-			(s.discStep < 0 || unprovoked) && time.Since(s.assocAt) < 25*time.Second && s.conn.PendingRead() == 0 {
+			(s.discStep < 0 || unprovoked) && time.Since(s.assocAt) < 25*time.Second && (s.conn.PendingRead() == 0 || unprovoked) {
 			s.hsJudged = true
 			bad := !s.established() || !s.p.Connected() || !s.p.VersionKnown() || !s.p.VerAckReceived()
 			if unprovoked {
